@@ -379,9 +379,24 @@ func alter(r *core.Rng, root *gnode, covered func(trail string) bool) (*gnode, s
 
 // ---------------------------------------------------------------- manifests
 
-func genManifest(r *core.Rng, i int) string {
+// stripCR removes U+000D from text and attribute values (relic's output writer emits it literally, see runSig)
+func stripCR(n *gnode) {
+	n.data = strings.ReplaceAll(n.data, "\r", "")
+	for i := range n.attrs {
+		n.attrs[i].val = strings.ReplaceAll(n.attrs[i].val, "\r", "")
+	}
+	for _, c := range n.ch {
+		stripCR(c)
+	}
+}
+
+func genManifest(r *core.Rng, i int, withCR bool) string {
 	cfg := &gcfg{wild: false, maxDepth: 3, maxKids: 3, monotone: true}
 	extra := genElem(r, scope{"": "urn:schemas-microsoft-com:asm.v2", "asmv2": "urn:schemas-microsoft-com:asm.v2"}, 1, cfg)
+	stripCR(extra)
+	if withCR {
+		extra.ch = append(extra.ch, &gnode{kind: 1, data: "line1\rline2"})
+	}
 	st := &style{r: r}
 	var b strings.Builder
 	st.write(&b, extra)
@@ -516,7 +531,8 @@ func runSig(c *core.Ctx) error {
 			// ---------------- ClickOnce manifest
 			sc := &sigCase{ID: id, Kind: "manifest", Key: k.name, Bits: k.bits, Hash: h.name}
 			id++
-			man := genManifest(r, id)
+			withCR := round == 1 && k.bits == 0 // one manifest per run whose signed content holds a carriage return (&#13;)
+			man := genManifest(r, id, withCR)
 			signed, err := appmanifest.Sign([]byte(man), k.cert, h.h)
 			if err != nil {
 				sc.Err = err.Error()
@@ -576,6 +592,7 @@ func runSig(c *core.Ctx) error {
 			id++
 			cfg := &gcfg{wild: false, maxDepth: 3, maxKids: 3, monotone: true}
 			body := genElem(r, scope{"": xmldsig.NsXMLDsig}, 1, cfg)
+			stripCR(body)
 			obj := etree.NewElement("Object")
 			obj.CreateAttr("Id", "idPackageObject")
 			obj.AddChild(toEtree(body))
@@ -624,7 +641,7 @@ func runSig(c *core.Ctx) error {
 			withNs := strings.Replace(string(blob), "<Signature ", `<Signature xmlns:unused="urn:unused" `, 1)
 			cu := runOne(0, "recdoc+unusedns:signedinfo", withNs, "0")
 			cu.Inc = true
-			if vfy2([]byte(withNs)) != nil {
+			if verr == nil && vfy2([]byte(withNs)) != nil {
 				cu.Err = "relic rejects the document with an unused declaration"
 			}
 			se.C14n = append(se.C14n, ci, co, cu)
